@@ -41,6 +41,65 @@ Lemma csptp_ts_wire_roundtrip s ns : 0 <= s < 2^48 -> 0 <= ns < 1000000000 ->
   csptp_ts_of_time (csptp_time_of_ts s ns) = Some (s, ns).
 Proof. intros Hs Hn. apply (csptp_ts_roundtrip s ns Hs Hn). Qed.
 
+(* the wire allows any 32-bit nanoseconds field; a non-canonical one (>= 10^9) denotes the instant
+   s + ns/10^9, and re-encoding that instant gives the canonical fields, not the original ones *)
+Lemma csptp_ts_noncanonical s ns : 0 <= s -> 0 <= ns < 2^32 -> s + ns / 1000000000 < 2^48 ->
+  csptp_ts_of_time (csptp_time_of_ts s ns) = Some (s + ns / 1000000000, ns mod 1000000000).
+Proof.
+  intros Hs Hn Hr. change (2^32) with 4294967296 in Hn. change (2^48) with 281474976710656 in Hr.
+  unfold csptp_ts_of_time, csptp_time_of_ts, time_sec, time_nsec, mk_time, nanos_per_sec, u32.
+  assert (E1 : (s * 1000000000 + ns) / 1000000000 = s + ns / 1000000000) by lia.
+  assert (E2 : (s * 1000000000 + ns) mod 1000000000 = ns mod 1000000000) by lia.
+  rewrite E1, E2.
+  destruct (s + ns / 1000000000 <? 0) eqn:A; [lia|]. destruct (281474976710655 <? s + ns / 1000000000) eqn:B; [lia|].
+  rewrite (Z.mod_small (ns mod 1000000000)) by lia. reflexivity.
+Qed.
+
+Lemma csptp_ts_noncanonical_differs s ns : 0 <= s -> 1000000000 <= ns < 2^32 ->
+  csptp_ts_of_time (csptp_time_of_ts s ns) <> Some (s, ns).
+Proof.
+  intros Hs Hn. change (2^32) with 4294967296 in Hn.
+  destruct (Z_lt_le_dec (s + ns / 1000000000) (2^48)) as [L|G].
+  - rewrite csptp_ts_noncanonical by (change (2^32) with 4294967296; lia). intros E. injection E as E1 E2. lia.
+  - unfold csptp_ts_of_time, csptp_time_of_ts, time_sec, mk_time, nanos_per_sec.
+    change (2^48) with 281474976710656 in G.
+    assert (E1 : (s * 1000000000 + ns) / 1000000000 = s + ns / 1000000000) by lia. rewrite E1.
+    destruct (s + ns / 1000000000 <? 0) eqn:A; [discriminate|].
+    destruct (281474976710655 <? s + ns / 1000000000) eqn:B; [discriminate|lia].
+Qed.
+
+(* at the upper edge the carried second leaves the 48-bit range: re-encoding is refused (panic) *)
+Lemma csptp_ts_edge_refused s ns : 0 <= s -> 0 <= ns -> 2^48 <= s + ns / 1000000000 ->
+  csptp_ts_of_time (csptp_time_of_ts s ns) = None.
+Proof.
+  intros Hs Hn G. change (2^48) with 281474976710656 in G.
+  unfold csptp_ts_of_time, csptp_time_of_ts, time_sec, mk_time, nanos_per_sec.
+  assert (E1 : (s * 1000000000 + ns) / 1000000000 = s + ns / 1000000000) by lia. rewrite E1.
+  destruct (s + ns / 1000000000 <? 0) eqn:A; [reflexivity|].
+  destruct (281474976710655 <? s + ns / 1000000000) eqn:B; [reflexivity|lia].
+Qed.
+
+Lemma ts_reencode_oracle s ns : 0 <= s < 2^48 -> 0 <= ns < 2^32 ->
+  match csptp_ts_of_time (csptp_time_of_ts s ns) with
+  | Some (a, b) => C18_ts_reencode_ok s ns 1 a b = true
+  | None => C18_ts_reencode_ok s ns 0 0 0 = true
+  end.
+Proof.
+  intros Hs Hn. unfold C18_ts_reencode_ok.
+  change (2^32) with 4294967296 in *. change (2^48) with 281474976710656 in *.
+  destruct (Z_lt_le_dec (s + ns / 1000000000) 281474976710656) as [L|G].
+  - rewrite csptp_ts_noncanonical by (change (2^32) with 4294967296; change (2^48) with 281474976710656; lia).
+    destruct (Z.ltb_spec ns 1000000000) as [C|C].
+    + rewrite Z.div_small, Z.mod_small, Z.add_0_r, !Z.eqb_refl by lia. reflexivity.
+    + destruct (Z.ltb_spec (s * 1000000000 + ns) (281474976710656 * 1000000000)) as [D|D]; [|lia].
+      assert (0 <= ns mod 1000000000 < 1000000000) by (apply Z.mod_pos_bound; lia).
+      repeat (apply andb_true_iff; split); try reflexivity; try (apply Z.leb_le; lia); try (apply Z.ltb_lt; lia).
+      apply Z.eqb_eq. lia.
+  - rewrite csptp_ts_edge_refused by (change (2^48) with 281474976710656; lia).
+    destruct (Z.ltb_spec ns 1000000000) as [C|C]; [lia|].
+    destruct (Z.ltb_spec (s * 1000000000 + ns) (281474976710656 * 1000000000)) as [D|D]; [lia|reflexivity].
+Qed.
+
 Lemma csptp_ts_range_refused t : time_sec t < 0 \/ 2^48 <= time_sec t -> csptp_ts_of_time t = None.
 Proof.
   change (2^48) with 281474976710656. unfold csptp_ts_of_time. intros [H|H].
@@ -191,3 +250,36 @@ Example csptp_formulas_inhabited :
   csptp_clock_offset 1000 (1000 + 37 + 500 + 3) 5000 (5000 - 37 + 500 + 4) 3 4 = 37 /\
   csptp_mean_path_delay 1000 (1000 + 37 + 500 + 3) 5000 (5000 - 37 + 500 + 4) 3 4 = 500.
 Proof. vm_compute. split; reflexivity. Qed.
+
+(* the oracle of the kind csptp.client follows from the formulas: a responder whose timestamps are theta
+   ahead (t1 = t0 + d1 + theta + c1 for a request that took d1, t2 = s2 + theta - c3 for a reply sent at s2
+   that took D2), any corrections c1, c3 and announced UTC correction U: the four values the client computes
+   satisfy C18_client_ok for every bound d1max >= d1, as long as no int64 operation overflows *)
+Lemma client_oracle t0 s2 d1 D2 theta c1 c3 U d1max :
+  0 <= d1 <= d1max ->
+  in_i64 (theta + d1 + c1) -> in_i64 (theta + d1) -> in_i64 (D2 - theta + c3) -> in_i64 (D2 - theta) ->
+  in_i64 (2 * theta + d1 - D2) -> in_i64 (d1 + D2) -> in_i64 (theta + d1 - U) -> in_i64 (D2 - theta + U) ->
+  let t1 := t0 + d1 + theta + c1 in let t2 := s2 + theta - c3 in let t3 := s2 + D2 in
+  C18_client_ok theta U d1max D2
+    (csptp_clock_offset t0 t1 t2 t3 c1 c3) (csptp_mean_path_delay t0 t1 t2 t3 c1 c3)
+    (csptp_c2s_delay t0 t1 c1 U) (csptp_s2c_delay t2 t3 c3 U) = true.
+Proof.
+  intros Hd A1 A2 A3 A4 A5 A6 A7 A8. cbv zeta.
+  unfold csptp_clock_offset, csptp_mean_path_delay, csptp_c2s_delay, csptp_s2c_delay, d_sub, d_add, time_sub, go_div.
+  replace (t0 + d1 + theta + c1 - t0) with (theta + d1 + c1) by ring.
+  replace (s2 + D2 - (s2 + theta - c3)) with (D2 - theta + c3) by ring.
+  rewrite !sat64_id by assumption.
+  replace (theta + d1 + c1 - c1) with (theta + d1) by ring.
+  replace (D2 - theta + c3 - c3) with (D2 - theta) by ring.
+  rewrite (i64_id (theta + d1)), (i64_id (D2 - theta)) by assumption.
+  replace (theta + d1 - (D2 - theta)) with (2 * theta + d1 - D2) by ring.
+  replace (theta + d1 + (D2 - theta)) with (d1 + D2) by ring.
+  rewrite (i64_id (2 * theta + d1 - D2)), (i64_id (d1 + D2)), (i64_id (theta + d1 - U)), (i64_id (D2 - theta + U)) by assumption.
+  assert (Q : forall x, in_i64 x -> in_i64 (Z.quot x 2)).
+  { unfold in_i64, min_i64, max_i64. intros x Hx. pose proof (Z.quot_rem' x 2). pose proof (Z.rem_bound_abs x 2). lia. }
+  rewrite !i64_id by (apply Q; assumption).
+  pose proof (Z.quot_rem' (2 * theta + d1 - D2) 2) as E1. pose proof (Z.rem_bound_abs (2 * theta + d1 - D2) 2) as B1.
+  pose proof (Z.quot_rem' (d1 + D2) 2) as E2. pose proof (Z.rem_bound_abs (d1 + D2) 2) as B2.
+  unfold C18_client_ok.
+  repeat (apply andb_true_iff; split); try (apply Z.leb_le; lia). apply Z.eqb_eq. ring.
+Qed.
